@@ -674,6 +674,8 @@ class Gen:
             op['i'] = pick_index(rng, n, 0.4)
             if rng.random() < 0.5:
                 op['sl'] = pick_slice(rng, n)
+        if kind in ('setslice', 'extend') and rng.random() < 0.3:
+            op['as_iter'] = True
         # pool donors may be used once per op
         seen = set()
         for it in op.get('items', []):
